@@ -4,6 +4,7 @@
 // file — in batch mode (1..3 files) and line at a time. Admission itself is decided by an independent restatement
 // of the sentence (extract.rs `spec_column`: a DEFAULT counts, every NOT NULL column must be non-NULL).
 use sqlgrep::data_model::TableDefinition;
+use sqlgrep::model::Value;
 
 use crate::c04::join_lines;
 use crate::engine_run::*;
@@ -18,6 +19,91 @@ fn spec_admitted(td: &TableDefinition, line: &str) -> bool {
     let lo = line_oracle(td, line);
     let vals: Vec<(bool, bool)> = td.columns.iter().map(|c| (spec_column(td, c, &lo, line).main.is_null(), c.options.nullable)).collect();
     vals.iter().any(|(null, _)| !null) && vals.iter().all(|(null, nullable)| *nullable || !null)
+}
+
+/// a table with a DEFAULT column and NO NOT NULL column: every line — also one that matches no pattern, is empty or is
+/// not JSON — obtains the DEFAULT value and therefore IS a row ("a declared DEFAULT counts")
+const MAIN_DEF_DFLT: &str = "CREATE TABLE t(line = '^([a-z]+)?;(-?[0-9]+)?;(-?[0-9]+)?;([^;]+)?;([^;]+)?;(!)?$', line[1] => k TEXT, line[2] => v INT, line[3] => w INT, line[4] => r REAL, line[5] => s TEXT DEFAULT 'dflt');";
+/// JSON-path variant; here a line IS noise when `a` is present with a non-integer value and `b` is absent or not text
+const JSON_DEF_DFLT: &str = "CREATE TABLE t({.a} => a INT DEFAULT 7, {.b} => b TEXT);";
+const JSON_LINES: &[&str] = &[
+    "{\"a\": 1}", "{\"a\": 2, \"b\": \"x\"}", "{\"b\": \"y\"}", "{}", "not json", "", "garbage {", "{\"a\": \"str\"}", "{\"a\": null}", "{\"a\": 1.5}",
+    "{\"a\": \"str\", \"b\": \"z\"}", "[1, 2]", "7", "{\"c\": 3}", "{\"a\": 7}", "{\"a\": true, \"b\": 5}", " ", "{\"a\": 1} trailing",
+];
+const REGEX_DFLT_EXTRA: &[&str] = &["", "garbage", "a;b;c", "#a;1;x", "A;1;2;3;4;", ";;;;;", "a;1;2;3;4", "b;2;;;;", "ab;3;1;0.5;x;!", ";;;;zz;", "a;1;2;3;dflt;"];
+
+/// the rows the sentence gives for the lines: the specified column values of every admitted line
+fn spec_rows(td: &TableDefinition, lines: &[String]) -> Vec<Vec<Value>> {
+    lines.iter().filter(|l| spec_admitted(td, l)).map(|l| {
+        let lo = line_oracle(td, l);
+        td.columns.iter().map(|c| spec_column(td, c, &lo, l).main).collect()
+    }).collect()
+}
+
+fn render1(col: &str, v: &Value) -> String { format!("{}: {}", col, v) }
+
+/// DEFAULT-without-NOT-NULL schemas: simple statements whose output is computed here from the specified rows
+fn default_schema_cases(run: &mut Run, rng: &mut Rng, json: bool) {
+    let defs = if json { JSON_DEF_DFLT.to_owned() } else { format!("{}\n{}", MAIN_DEF_DFLT, JOIN_DEF) };
+    let col = if json { "a" } else { "s" };
+    let n = rng.below(9);
+    let lines: Vec<String> = (0..n).map(|_| {
+        if json { (*rng.pick(JSON_LINES)).to_owned() } else if rng.chance(1, 2) { (*rng.pick(REGEX_DFLT_EXTRA)).to_owned() } else { gen_line(rng, 40, false) }
+    }).collect();
+    let cut = rng.below(lines.len() + 1);
+    let files: Vec<Vec<u8>> = if rng.chance(1, 2) { vec![join_lines(&lines[..cut]), join_lines(&lines[cut..])] } else { vec![join_lines(&lines)] };
+    let td = match prepare(&defs, &format!("SELECT {} FROM t", col)) { Ok(p) => p.tables.get("t").unwrap().clone(), Err(e) => { run.fail(defs.clone(), "default-schema-rejected", e); return; } };
+    let ci = td.columns.iter().position(|c| c.name == col).unwrap();
+    // admission on every line
+    for l in &lines {
+        run.oracle_checks += 1;
+        let got = td.extract(l).any_result();
+        let want = spec_admitted(&td, l);
+        if got != want {
+            run.fail(format!("definition={} line={:?}", defs, l), if want { "admitted-line-dropped:default-column" } else { "noise-line-admitted" }, format!("extract(..).any_result() = {} but the sentence gives {} (a declared DEFAULT counts)", got, want));
+        }
+    }
+    let rows = spec_rows(&td, &lines);
+    let vals: Vec<Value> = rows.iter().map(|r| r[ci].clone()).collect();
+    let mut first: Vec<Value> = Vec::new();
+    for v in &vals { if !first.contains(v) { first.push(v.clone()); } }
+    let lim = rng.below(4);
+    let statements: Vec<(String, Option<Vec<String>>, bool)> = vec![
+        (format!("SELECT {} FROM t", col), Some(vals.iter().map(|v| render1(col, v)).collect()), false),
+        (format!("SELECT DISTINCT {} FROM t", col), Some(first.iter().map(|v| render1(col, v)).collect()), false),
+        (format!("SELECT {} FROM t LIMIT {}", col, lim), Some(vals.iter().take(lim).map(|v| render1(col, v)).collect()), false),
+        ("SELECT COUNT(*) FROM t".to_owned(), Some(if rows.is_empty() { vec![] } else { vec![format!("count0: {}", rows.len())] }), false),
+        (format!("SELECT {}, COUNT(*) FROM t GROUP BY {}", col, col), Some(first.iter().map(|v| format!("{}: {}, count1: {}", col, v, vals.iter().filter(|x| *x == v).count())).collect()), true),
+    ];
+    for (text, want, unordered) in statements {
+        let prepared = match prepare(&defs, &text) { Ok(p) => p, Err(e) => { run.fail(text.clone(), "default-schema-rejected", e); continue; } };
+        let r = run_files(&prepared, &files);
+        let desc = format!("definition={} query={} lines={:?} files={}", defs.replace('\n', " "), text, lines, files.len());
+        if let Some(case) = batch_case(&prepared, b"", &files, None) {
+            run.case_with_desc(case, r.wire(), format!("dflt:{}:{}:{}", if json { "json" } else { "regex" }, text.split(' ').take(3).collect::<Vec<_>>().join("_"), r.status), desc.clone());
+        }
+        run.oracle_checks += 1;
+        if let Some(mut want) = want {
+            let mut got = r.records();
+            if unordered { want.sort(); got.sort(); }
+            if r.status != "ok" || got != want {
+                run.fail(desc.clone(), "default-row-missing-or-wrong", format!("{} printed {:?} ({}) but the rows the sentence gives yield {:?}", text, got, r.status, want));
+            }
+        }
+        // line at a time: a result exactly for the admitted lines (non-aggregate, no DISTINCT/LIMIT)
+        if text == format!("SELECT {} FROM t", col) {
+            let (wire, steps) = run_incremental(&prepared, &lines);
+            if let Some(case) = incr_case(&prepared, b"", &join_lines(&lines)) {
+                run.case_with_desc(case, wire.clone(), format!("dflt-incr:{}", if json { "json" } else { "regex" }), format!("incremental {}", desc));
+            }
+            run.oracle_checks += 1;
+            let got: Vec<bool> = steps.iter().map(|s| s.is_some()).collect();
+            let want: Vec<bool> = lines.iter().map(|l| spec_admitted(&td, l)).collect();
+            if got != want {
+                run.fail(format!("incremental {}", desc), "default-row-missing-incremental", format!("lines with a result {:?}, admitted by the sentence {:?}", got, want));
+            }
+        }
+    }
 }
 
 const MAIN_NOISE: &[&str] = &[
@@ -62,7 +148,9 @@ pub fn run(p: &Params) -> Run {
     let jp = jpath.display().to_string();
     let opts = QueryOpts { allow_limit: true, allow_distinct: true, allow_join: true, aggregate: None };
     for it in 0..iterations {
-        let sch = gen_schema(&mut rng);
+        if it % 5 == 0 { default_schema_cases(&mut run, &mut rng, it % 10 == 0); }
+        let dflt_schema = it % 4 == 3;
+        let sch = if dflt_schema { Schema { defs: format!("{}\n{}", MAIN_DEF_DFLT, JOIN_DEF), has_bool: false } } else { gen_schema(&mut rng) };
         let mut gq = gen_query(&mut rng, &sch, &opts, &jp);
         if it % 3 == 0 { for _ in 0..6 { if gq.joined { break; } gq = gen_query(&mut rng, &sch, &opts, &jp); } }
         let prepared = match prepare(&sch.defs, &gq.text) { Ok(p) => p, Err(_) => { run.count("rejected"); continue; } };
@@ -71,7 +159,7 @@ pub fn run(p: &Params) -> Run {
         // base input: 1..3 files of generated lines (some of them already noise), a joined file
         let nfiles = 1 + rng.below(3);
         let null_pct = *rng.pick(&[10u64, 40, 70]);
-        let files_lines: Vec<Vec<String>> = (0..nfiles).map(|_| { let n = rng.below(7); (0..n).map(|_| gen_line(&mut rng, null_pct, false)).collect() }).collect();
+        let files_lines: Vec<Vec<String>> = (0..nfiles).map(|_| { let n = rng.below(7); (0..n).map(|_| if dflt_schema && rng.chance(1, 3) { (*rng.pick(REGEX_DFLT_EXTRA)).to_owned() } else { gen_line(&mut rng, null_pct, false) }).collect() }).collect();
         let jlines: Vec<String> = (0..rng.below(9)).map(|_| gen_join_line(&mut rng)).collect();
 
         // property part 1 on every line at hand: the implementation admits exactly the lines the sentence admits
@@ -97,7 +185,7 @@ pub fn run(p: &Params) -> Run {
             ("base", &files_lines, &jlines), ("clean", &clean_files, &clean_j), ("noisy", &noisy_files, &noisy_j),
             ("noisy-main-only", &noisy_files, &jlines), ("noisy-join-only", &files_lines, &noisy_j),
         ];
-        let stmt_tag = format!("{}{}{}{}", if gq.is_aggregate { "agg" } else { "sel" }, if gq.joined { "+join" } else { "" }, if gq.text.contains("DISTINCT") { "+dist" } else { "" }, if gq.text.contains("LIMIT") { "+lim" } else { "" });
+        let stmt_tag = format!("{}{}{}{}{}", if dflt_schema { "dflt:" } else { "" }, if gq.is_aggregate { "agg" } else { "sel" }, if gq.joined { "+join" } else { "" }, if gq.text.contains("DISTINCT") { "+dist" } else { "" }, if gq.text.contains("LIMIT") { "+lim" } else { "" });
         let mut results: Vec<(String, BatchResult)> = Vec::new();
         for (name, fl, jl) in &variants {
             if !gq.joined && name.ends_with("join-only") { continue; }
